@@ -52,6 +52,10 @@ def _raise(s, cls):
 def enc_uint(ex, s, width, v, node):
     """UInt32/UInt64/Byte: value.to_bytes(width,'big'); OverflowError when out of range."""
     res = []
+    if isinstance(v, VOpt) or v is VNone:
+        for s1, v1 in ex.unopt(s, v, node):
+            res.extend([(s1, v1)] if isinstance(v1, Raised) else enc_uint(ex, s1, width, v1, node))
+        return res
     iz = ex.as_int(v)
     if iz is None:
         raise Unsupported(f'encoder argument {v!r}')
@@ -150,6 +154,13 @@ def b_minmax(is_min):
         zs = [ex.as_int(v) for v in vals]
         if any(z is None for z in zs):
             raise Unsupported('min/max of non-int')
+        if len(zs) == 2 and not (z3.is_int_value(simp(zs[0])) and z3.is_int_value(simp(zs[1]))):
+            # fork instead of building an ite (ite terms inside sequence expressions defeat the solver)
+            out = []
+            for s2, lt in ex.branch(s, zs[0] <= zs[1], node):
+                pick = zs[0] if (lt == is_min) else zs[1]
+                out.append((s2, VInt(pick)))
+            return out
         r = zs[0]
         for z in zs[1:]:
             r = z3.If(z < r, z, r) if is_min else z3.If(z > r, z, r)
